@@ -207,10 +207,12 @@ Definition latest_oracle (s : store) (isd : N) (k : list N) : bool :=
   end.
 
 (** the property for LoadTRCs: nothing whose validity starts in the future gets
-    in, and the latest TRC afterwards is the greatest stored one (no regression,
+    in, nothing is removed, and the latest TRC afterwards is the greatest stored one (no regression,
     whatever the order of the files) *)
 Definition load_oracle (now : Z) (pre post : store) (latest : list N) : bool :=
-  forallb (fun t => in_store t pre || (t_nb t <=? now)%Z) post && latest_oracle post 1 latest.
+  forallb (fun t => in_store t pre || (t_nb t <=? now)%Z) post
+  && forallb (fun t => in_store t post) pre          (* nothing stored before is lost *)
+  && latest_oracle post 1 latest.
 
 Inductive case :=
 | CHist (init : store) (ops : list op) (impl : list (bool * list N * store))
